@@ -253,11 +253,6 @@ type runner struct {
 	probeOutcome string // "" none | panicked | silent
 	probeParked  bool   // requests were parked when the probe was issued
 	ended        bool   // the run cannot continue (the probe panicked: hive.go leaves the mutex' internal lock held)
-	// afterPanic: a mismatched unlock has panicked. hive.go panics with the entity mutex' internal lock held, so requests on
-	// that entity can never complete any more (also on the unchanged tree): the rest of the script continues in
-	// safety-only mode - nothing conflicting may be GRANTED while the real holders are still inside.
-	afterPanic bool
-	stuck      map[int]bool // actors whose release call is parked for ever (they still hold in the model)
 }
 
 type finding struct{ FP, What string }
@@ -291,21 +286,27 @@ func newRunner(cfg scriptCfg, useStr bool) *runner {
 }
 
 func (r *runner) viol(fp, f string, a ...any) {
-	r.bad = append(r.bad, finding{fp, fmt.Sprintf(f, a...)})
+	what := fmt.Sprintf(f, a...)
+	if r.probeOutcome == "panicked" {
+		// after a recovered mismatched unlock the state must be unchanged: the rightful holders release normally
+		// and every request is granted once its conflicts are gone
+		switch {
+		case fp == "script/unlock-blocked", fp == "script/cannot-complete", strings.HasPrefix(fp, "lost-wakeup/"), fp == "state/String-disagrees-with-model" && r.busy():
+			fp = "notheld/rightful-release-blocks-after-mismatched-unlock"
+			what = fmt.Sprintf("after the mismatched %s panicked (and was recovered) the mutex is unusable: %s", r.probe.Op, what)
+		case fp == "script/unexpected-panic":
+			fp = "notheld/rightful-release-panics-after-mismatched-unlock"
+			what = fmt.Sprintf("after the mismatched %s panicked (and was recovered): %s", r.probe.Op, what)
+		}
+	}
+	r.bad = append(r.bad, finding{fp, what})
 }
 
 // options: actors that are not parked and have operations left.
 func (r *runner) options() []int {
 	var o []int
 	for a := range r.actors {
-		if _, p := r.m.parked[a]; !p && !r.stuck[a] && r.pc[a] < len(r.cfg.Programs[a]) {
-			if r.afterPanic {
-				// the holders stay inside (their releases would park on the poisoned entity); only up to three
-				// further NEW requests are issued
-				if k := r.cfg.Programs[a][r.pc[a]].K; (k != "L" && k != "RL") || len(r.order)-r.probe.AfterStep >= 3 {
-					continue
-				}
-			}
+		if _, p := r.m.parked[a]; !p && r.pc[a] < len(r.cfg.Programs[a]) {
 			o = append(o, a)
 		}
 	}
@@ -327,7 +328,7 @@ func (r *runner) issue(a int) {
 	r.pc[a]++
 	r.order = append(r.order, a)
 	isAcq := o.K == "L" || o.K == "RL"
-	if !isAcq && !r.afterPanic {
+	if !isAcq {
 		r.m.release(a, o) // takes effect when issued
 	}
 	tg := r.tg
@@ -335,31 +336,12 @@ func (r *runner) issue(a int) {
 	if isAcq {
 		r.m.parked[a] = o
 	}
-	if !isAcq && r.afterPanic {
-		// the release may be parked for ever on the poisoned entity: it takes effect only if it returns
-		for k := 0; k < 4 && r.busy(); k++ {
-			yield()
-		}
-		if r.busy() {
-			waitQuiescent()
-		}
-		if r.actors[a].Busy() {
-			if r.stuck == nil {
-				r.stuck = map[int]bool{}
-			}
-			r.stuck[a] = true
-		} else if p := r.actors[a].TakePanic(); p != "" {
-			r.viol("notheld/rightful-release-panics-after-mismatched-unlock", "after the mismatched %s (which panicked) the rightful holder's %s by actor %d panics: %s - the mismatched call corrupted the bookkeeping", r.probe.Op, o, a, p)
-		} else {
-			r.m.release(a, o)
-		}
-	}
 	r.quiesce(fmt.Sprintf("a%d:%s", a, o))
 	if p := r.actors[a].TakePanic(); p != "" {
 		r.viol("script/unexpected-panic", "well-formed script: %s by actor %d panicked: %s", o, a, p)
 		delete(r.m.parked, a)
 	}
-	if !isAcq && !r.afterPanic && r.actors[a].Busy() {
+	if !isAcq && r.actors[a].Busy() {
 		r.viol("script/unlock-blocked", "%s by actor %d is parked for ever", o, a)
 	}
 }
@@ -410,14 +392,11 @@ func (r *runner) quiesce(what string) {
 	for _, a := range pk {
 		r.parkObs++
 		ev += fmt.Sprintf(" parked a%d:%s", a, r.m.parked[a])
-		if r.afterPanic {
-			continue // liveness cannot be demanded on a poisoned entity
-		}
 		if class, w := r.m.unjustified(a); class != "" {
 			r.viol("lost-wakeup/"+class, "%s (after %s)", w, what)
 		}
 	}
-	if r.useStr && !r.afterPanic {
+	if r.useStr {
 		if mm := reStr.FindStringSubmatch(r.tg.str()); mm != nil {
 			s := r.m.ent(0)
 			wantW := strconv.FormatBool(s.writer != -1)
@@ -440,7 +419,7 @@ func (r *runner) quiesce(what string) {
 
 // finish: a well-formed script must run to completion.
 func (r *runner) finish() {
-	if len(r.bad) > 0 || r.ended || r.afterPanic {
+	if len(r.bad) > 0 || r.ended {
 		return
 	}
 	if !r.done() {
@@ -541,8 +520,7 @@ func (r *runner) doProbe(o op) {
 	what := fmt.Sprintf("mismatched %s by an extra goroutine", o)
 	if p := intruder.TakePanic(); p != "" {
 		r.probeOutcome = "panicked"
-		r.afterPanic = true
-		r.trace = append(r.trace, what+" -> panic: "+p+" (accepted; the rest of the script continues in safety-only mode with the holders still inside)")
+		r.trace = append(r.trace, what+" -> panic: "+p+" (recovered; the script continues: the state must be unchanged)")
 		r.quiesce(what) // a grant caused by the call is judged by the model
 		return
 	}
